@@ -23,6 +23,10 @@ ASSUMPTIONS = [
     "after the first event until the initial account snapshot is processed): shutdown_after_backtest waits only for the "
     "market forwarder, so without the gate a fill may legitimately arrive after Shutdown (DESIGN C20); ungated "
     "MarketDataInMemory scenarios are judged on the dataset-consumption clauses only",
+    "the gated source also holds back its FIRST item until the initial account snapshot is processed: the mock exchange "
+    "stamps balances with the request time of the wall-clock driven HistoricalClock, which the first market event re-anchors "
+    "at its seed - an order sent on it before the snapshot is processed gets a balance snapshot stamped older than the "
+    "account snapshot and the engine keeps the pre-order balance (observed once in ~500 concurrent runs before this gate)",
     "one order per decision point (two orders answered at the same instant may legitimately be applied in either order)",
     "trade / balance timestamps come from the wall-clock driven HistoricalClock and are excluded from comparisons",
     "every order is accepted by the mock exchange (balances suffice whichever asset its sell arm debits - F3/C08); "
@@ -133,7 +137,7 @@ def judge(ctx, scns, trace_path, results_path, expected, label):
         return {"scenarios": ss, "expected": [[k[0], k[1], expected[k]] for k in sorted(keys) if k in expected]}
 
     # ---- screening: aborted runs / harness-observed anomalies cannot be shown to TLC
-    clean, cur, dropped = [], None, False
+    clean, cur = [], None
     for l in lines:
         if l["a"] == "Reset":
             cur = l["kind"]
@@ -145,7 +149,7 @@ def judge(ctx, scns, trace_path, results_path, expected, label):
                               "summaries: %s" % (scn, by_name[scn]["mode"], len(by_name[scn]["runs"]), by_name[scn]["workers"], what[:300]),
                               replay_of([scn]))
             else:
-                ctx.violation("anomaly:" + " ".join(what.split()[:4]), "run %s: %s" % (cur, what), replay_of([scn]))
+                ctx.violation("anomaly:" + what.split(":")[0], "run %s: %s" % (cur, what), replay_of([scn]))
             continue
         clean.append(l)
     clean_path = ctx.path("clean_%s.ndjson" % label)
@@ -243,7 +247,7 @@ def judge(ctx, scns, trace_path, results_path, expected, label):
                                           % (who, json.dumps(r["acts"]), field, base["scn"], diff(r[field], base[field])),
                                           replay_of(sorted(set(alone[(x["data_seed"], x["variant"])]["scn"] for x in rs
                                                                if (x["data_seed"], x["variant"]) in alone)) + [scn]))
-            elif r["trades_seen"] < r["orders_fired"]:
+            elif r["mode"] == "inmem" and r["trades_seen"] < r["orders_fired"]:
                 stats["inmem_runs_ending_with_unprocessed_fills"] += 1
             # spec -> impl: the final observation is one of the outcomes TLC enumerated for these parameters
             exp = expected.get((r["data_seed"], r["variant"]))
